@@ -121,6 +121,12 @@ def obligations(tier, seed):
         bwd = [("org", "H4"), ("ins", "TGT", "NOP", ""), ("gap", "n", GAP), ("ins", "SRC", m, "TGT")]
         obs.append(make("br-fwd:%s" % m, fwd, [(1, "TGT", None, 1)], short))
         obs.append(make("br-bwd:%s" % m, bwd, [(3, "TGT", None, 1)], short))
+    for m in shorts + longs:
+        obs.append(make("br-self:%s" % m, [("org", "H4"), ("ins", "", "NOP", ""), ("ins", "SRC", m, "SRC"), ("ins", "", "NOP", "")],
+                        [(2, "SRC", None, 1)], False))
+    for m in ["LDA", "LEAX", "LDY"]:
+        obs.append(make("pcr-self:%s" % m, [("org", "H4"), ("ins", "SRC", m, "SRC,PCR"), ("ins", "", "NOP", "")], [(1, "SRC", None, 1)]))
+        obs.append(make("pcr-next:%s" % m, [("org", "H4"), ("ins", "SRC", m, "NXT,PCR"), ("ins", "NXT", "NOP", "")], [(1, "NXT", None, 1)]))
     pcr_ops = ["LDA", "LEAX", "LDY", "STX", "JSR", "CMPD", "LEAS", "CLR"] if full else ["LDA", "LEAX", "LDY"]
     for m in pcr_ops:
         for name, opnd, kname, sign in [("pcr", "TGT,PCR", None, 1), ("[pcr]", "[TGT,PCR]", None, 1),
